@@ -7,7 +7,13 @@ Regenerated from the staged source on every run, fail closed:
     the mask comprehension, `initial=0`) are recognised statement by statement; any statement of `get_pred` that is not one of
     the recognised shapes raises ExtractError (the generated file then has no definitions and the model/theorems do not build);
   * `mu_const` is evaluated with an exact unit algebra (c, km, s, Mpc, pc) to a dimensionless rational;
-  * which attributes `clear_data` resets.
+  * which attributes `clear_data` resets;
+  * `run_sympify`'s analytic step: the ONE call `sympy.integrate(<integrand>, x)` — its integrand is translated
+    (`1 / sqrt(eq)` -> `sympifyIntegrand`), the integration variable must be `x`, and the value of the call must reach the
+    returned `eq` unprocessed (`R = sympy.integrate(..); eq = R`): anything wrapped around the call or applied to its
+    arguments first (`.subs(..)`, `posify`, `simplify`, ...) is an unknown shape and raises ExtractError.  What
+    `sympy.integrate` itself returns is third-party: that is the hypothesis `ESR.C19.AntiderivativeContract` of
+    Props/C19c.lean, checked at run time on the real antiderivative expressions by harness/props/c19.py.
 """
 import ast, re
 from fractions import Fraction
@@ -254,18 +260,84 @@ def get_pred(fn):
     return r
 
 
+# ---- run_sympify: the analytic step ----------------------------------------------------------------------------------
+
+def _tr_sym(node):
+    """the integrand handed to sympy.integrate: arithmetic over `eq` (-> F x), the module's `sqrt` and literals"""
+    if isinstance(node, ast.Name) and node.id == "eq":
+        return "(F x)"
+    if isinstance(node, ast.Constant):
+        return _num(node.value)
+    if isinstance(node, ast.BinOp):
+        op = {ast.Add: "+", ast.Sub: "-", ast.Mult: "*", ast.Div: "/"}.get(type(node.op))
+        if op is None:
+            raise ExtractError("run_sympify: operator %s in the integrand (line %d)" % (type(node.op).__name__, node.lineno))
+        return "(%s %s %s)" % (_tr_sym(node.left), op, _tr_sym(node.right))
+    if isinstance(node, ast.Call) and isinstance(node.func, ast.Name) and node.func.id == "sqrt" and len(node.args) == 1 and not node.keywords:
+        return "(sqrt %s)" % _tr_sym(node.args[0])
+    raise ExtractError("run_sympify: integrand of sympy.integrate not translated (line %d): %s" % (getattr(node, "lineno", 0), ast.unparse(node)[:90]))
+
+
+def run_sympify(fn):
+    """-> dict(integrand=(lean, line)).  Fail closed on anything but
+           <R> = sympy.integrate(<integrand over eq>, x)   [inside `if try_integration: try: with time_limit(tmax):`]
+           if <R>.has(sympy.Integral): raise ValueError
+           eq = <R>;  integrated = True
+       with `eq` assigned before only by `eq = sympy.sympify(fcn_i, locals=...)` and returned as the second value."""
+    calls = [n for n in ast.walk(fn) if isinstance(n, ast.Call) and ast.unparse(n.func) in ("sympy.integrate", "integrate")]
+    if len(calls) != 1:
+        raise ExtractError("run_sympify: %d calls of sympy.integrate (expected 1)" % len(calls))
+    call = calls[0]
+    if call.keywords or len(call.args) != 2 or ast.unparse(call.args[1]) != "x":
+        raise ExtractError("run_sympify: sympy.integrate is not called as integrate(<integrand>, x) (line %d)" % call.lineno)
+    owner = [n for n in ast.walk(fn) if isinstance(n, ast.Assign) and n.value is call]
+    if len(owner) != 1 or len(owner[0].targets) != 1 or not isinstance(owner[0].targets[0], ast.Name):
+        raise ExtractError("run_sympify: the value of sympy.integrate(...) is post-processed before it is stored (line %d): %s" % (
+            call.lineno, next((ast.unparse(n)[:90] for n in ast.walk(fn) if isinstance(n, ast.Assign) and call in list(ast.walk(n.value))), "?")))
+    res = owner[0].targets[0].id
+    # every assignment to `eq` and every use of the result
+    eq_assigns = [n for n in ast.walk(fn) if isinstance(n, ast.Assign) and any(isinstance(t, ast.Name) and t.id == "eq" for t in n.targets)]
+    kinds = []
+    for n in eq_assigns:
+        v = ast.unparse(n.value)
+        if isinstance(n.value, ast.Call) and ast.unparse(n.value.func) == "sympy.sympify":
+            kinds.append("sympify")
+        elif v == res:
+            kinds.append("result")
+        else:
+            raise ExtractError("run_sympify: unrecognised assignment to eq (line %d): %s" % (n.lineno, ast.unparse(n)[:90]))
+    if res == "eq":
+        raise ExtractError("run_sympify: sympy.integrate result overwrites eq directly")
+    if sorted(kinds) != ["result", "sympify"]:
+        raise ExtractError("run_sympify: eq is assigned %r (expected once from sympy.sympify, once from the integral)" % kinds)
+    for n in ast.walk(fn):
+        if isinstance(n, ast.Assign) and any(isinstance(t, ast.Name) and t.id == res for t in n.targets) and n is not owner[0]:
+            raise ExtractError("run_sympify: the integral %s is reassigned (line %d)" % (res, n.lineno))
+        if isinstance(n, ast.Name) and n.id == res and isinstance(n.ctx, ast.Load):
+            par = [m for m in ast.walk(fn) if any(c is n for c in ast.iter_child_nodes(m))][0]
+            ok = (isinstance(par, ast.Assign) and par in eq_assigns) or \
+                 (isinstance(par, ast.Attribute) and par.attr == "has")
+            if not ok:
+                raise ExtractError("run_sympify: the integral %s is used in an unrecognised way (line %d)" % (res, n.lineno))
+    rets = [n for n in ast.walk(fn) if isinstance(n, ast.Return)]
+    if len(rets) != 1 or ast.unparse(rets[0].value) not in ("(fcn_i, eq, integrated)", "fcn_i, eq, integrated"):
+        raise ExtractError("run_sympify: does not end with `return fcn_i, eq, integrated`")
+    return dict(integrand=(_tr_sym(call.args[0]), call.lineno), src=ast.unparse(call))
+
+
 @extract.extractor("Panth")
 def gen(stage):
     tree = extract._parse(stage, REL)
     init = extract.find_def(tree, "__init__", CLS)
     gp = get_pred(extract.find_def(tree, "get_pred", CLS))
     clear = extract.find_def(tree, "clear_data", CLS)
+    rs = run_sympify(extract.find_def(tree, "run_sympify", CLS))
     coeff, arg, mlines = mu_const(init)
     dz, dzl = simple_attr(init, "delta_z", "frac")
     nz, nzl = simple_attr(init, "min_nz", "nat")
     if not (none_attr(init, "data_x") and none_attr(init, "data_mask")):
         raise ExtractError("__init__ does not start with data_x = data_mask = None")
-    t = extract.header("Panth", ["%s:%s.get_pred" % (REL, CLS), "%s.__init__" % CLS, "%s.clear_data" % CLS])
+    t = extract.header("Panth", ["%s:%s.get_pred" % (REL, CLS), "%s.__init__" % CLS, "%s.clear_data" % CLS, "%s.run_sympify" % CLS])
     t += "/-- likelihood.py:%d  self.delta_z -/\ndef deltaZNum : Nat := %d\ndef deltaZDen : Nat := %d\n" % (dzl, dz.numerator, dz.denominator)
     t += "def deltaZ {α : Type} [NatCast α] [Div α] : α := ((deltaZNum : Nat) : α) / ((deltaZDen : Nat) : α)\n"
     t += "/-- likelihood.py:%d  self.min_nz -/\ndef minNz : Nat := %d\n" % (nzl, nz)
@@ -286,6 +358,9 @@ def gen(stage):
     t += "/-- likelihood.py:%s  mu_const = K * log10((c / Hfid / (10 pc)).to('')), the quantity evaluated exactly -/\n" % ",".join(map(str, mlines))
     t += "def muConstCoeff : Nat := %d\ndef muConstArgNum : Nat := %d\ndef muConstArgDen : Nat := %d\n" % (coeff, arg.numerator, arg.denominator)
     t += "def muConst (log10 : α → α) : α := ((muConstCoeff : Nat) : α) * log10 (((muConstArgNum : Nat) : α) / ((muConstArgDen : Nat) : α))\n"
+    t += "/-- likelihood.py:%d  run_sympify: %s - the integrand handed to sympy.integrate (F: eq as a function of x); the result of the call\n" \
+         "reaches the returned eq unprocessed (anything else is rejected by the extractor) -/\n" % (rs["integrand"][1], rs["src"])
+    t += "def sympifyIntegrand (sqrt : α → α) (F : α → α) (x : α) : α := %s\n" % rs["integrand"][0]
     t += "end\n"
     t += extract.footer("Panth")
     return t
